@@ -88,7 +88,7 @@ def run(ctx, report: Report) -> None:
                                                  'FLG_OUT_OF_RANGE', 'FLG_PLACEHOLDER_SHOWN', 'FLG_PSEUDO')}
 
     # ---- R1 ----------------------------------------------------------------------------------------------
-    r1 = report.rule('C17-R1', 'partition laws by construction of the definitions', floor=5)
+    r1 = report.rule('C17-R1', 'partition laws by construction of the definitions', floor=3)
 
     def law(key, ok, detail, msg):
         r1.instance({'law': key, **detail, 'holds': ok}, key=key)
@@ -223,7 +223,7 @@ def run(ctx, report: Report) -> None:
     # find_bidi skipping the content of nested iframes: row of the pipeline table (R7)
 
     # ---- R3 ----------------------------------------------------------------------------------------------
-    r3 = report.rule('C17-R3', 'memo tables are identity-keyed lists', floor=2)
+    r3 = report.rule('C17-R3', 'memo tables are identity-keyed lists', floor=1)
     _, init = src.func('css_match.CSSMatch.__init__')
     for st in walk_no_nested(init):
         if isinstance(st, ast.Assign) and unparse(st.targets[0]).startswith('self.cached_'):
